@@ -507,9 +507,13 @@ def run(ctx):
     RECV_MEASURE_TAKES_BASES[0] = {"basis_local", "basis_remote", "rotations_local", "rotations_remote"} <= set(
         inspect.signature(EPRSocket.recv_measure).parameters)
     ctx.coverage["recv_measure_takes_bases"] = RECV_MEASURE_TAKES_BASES[0]
-    methods, diffs = ec.signature_defaults_report()
-    ctx.gen_obligation("every public create*/recv* method of EPRSocket has the documented default for every parameter "
-                       "(frozen table, compared with inspect.signature)", not diffs and bool(methods), "; ".join(diffs))
+    methods, diffs, unknown_api = ec.signature_defaults_report()
+    ctx.gen_obligation("every documented (method, parameter) of the public create*/recv* methods of EPRSocket has the "
+                       "documented default (frozen table, compared with inspect.signature)", not diffs and bool(methods),
+                       "; ".join(diffs))
+    if unknown_api:   # new API is not evidence against the property: recorded, not an obligation
+        ctx.coverage["unknown_api"] = {u: "not in the frozen table (recorded only; C10 exercises new methods generically)"
+                                       for u in unknown_api}
     if ok:
         r = ctx.coqc("Gen_Epr.v")
         ctx.gen_obligation("Gen_Epr.v type-checks", r.ok, r.err[-300:])
